@@ -13,6 +13,7 @@ import (
 	"math"
 	"os"
 	"sort"
+	"strconv"
 	"strings"
 
 	"github.com/EliCDavis/polyform/formats/ply"
@@ -119,6 +120,8 @@ func attrSalt(name string) int {
 	return s % 7
 }
 
+var f32Ladder = core.Float32Ladder()
+
 var genPattern = []float64{0.1, -0.75, 0.25, 1.0 / 3, 0.7, -0.2}
 
 // Value of component c of vertex i of an attribute.
@@ -149,6 +152,11 @@ func Value(class, name string, i, c int) float64 {
 			v = v*1.6 - 0.3
 		}
 		return v
+	}
+	if strings.HasPrefix(class, "lad:") {
+		// value ladder: vertex i, component c of the family "lad:k" is rung k + 4i + c (+ a per-attribute shift)
+		k, _ := strconv.Atoi(class[4:])
+		return float64(math.Float32frombits(f32Ladder[(k+4*i+c+11*a)%len(f32Ladder)]))
 	}
 	v := float64(3*i) + 0.5*float64(c) + genPattern[(a+c+i)%len(genPattern)]
 	if (a+i)%3 == 2 {
@@ -902,8 +910,48 @@ func run(c *core.Ctx) {
 	// ---- scope L: size ladder (element counts around every power of two) -------------------------
 	k.ladder(next)
 
+	// ---- scope V: value ladder (every float32 magnitude band in every component) -------------------
+	k.values(next)
+
 	// ---- scope B: every mesh of S_mesh(4,2) with three attribute mixes ----------------------------
 	k.smesh(next)
+}
+
+// values: the shapes and attribute sets above draw their numbers from a few ordinary ones; number
+// formatting and parsing (ascii) and width handling (binary) have value-dependent paths of their own.
+// Every rung of the float32 ladder (core.Float32Ladder: both zeros, subnormals, every binade, the
+// integer-width borders, decimal powers) passes through every component of Position, Normal,
+// TexCoord and two scalars, stored as float and (Position, TexCoord) as double, on a point cloud and
+// on a welded triangle mesh, in all three encodings, under the same three clauses.
+func (k checker) values(next func() bool) {
+	c := k.c
+	shapes := []shape{
+		{"cloud-4", "point", 4, []int{0, 1, 2, 3}},
+		{"two-triangles-welded", "tri", 4, []int{0, 1, 2, 2, 1, 3}},
+	}
+	ws := []WCfg{
+		{Kind: "default", Label: "default(ply.Write)"},
+		{Kind: "mw", Unspec: true, Ptr: true, Label: "MeshWriter{Position double, TexCoord as s/t double, unspecified on}", Props: []WProp{
+			{"TexCoord", 2, "double", []string{"s", "t"}},
+			{"Position", 3, "double", []string{"x", "y", "z"}},
+		}},
+	}
+	c.Bound("V.value_ladder", fmt.Sprintf("%d float32 values, each through every component of Position, Normal, TexCoord, Opacity, Intensity x %d shapes x %d writers x 3 encodings", len(f32Ladder), len(shapes), len(ws)))
+	for r := range f32Ladder {
+		if c.Expired() {
+			return
+		}
+		if !next() {
+			continue
+		}
+		val := "lad:" + strconv.Itoa(r)
+		attrs := []AttrCfg{{"Position", 3, val}, {"Normal", 3, val}, {"TexCoord", 2, val}, {"Opacity", 1, val}, {"Intensity", 1, val}}
+		for _, sh := range shapes {
+			for _, w := range ws {
+				k.eval(Case{Scope: "V/value-ladder/" + sh.name, Mesh: MeshCfg{Topo: sh.topo, V: sh.v, Idx: sh.idx, Attrs: attrs}, W: w, Readers: r%64 == 0})
+			}
+		}
+	}
 }
 
 var mixesB = []struct {
